@@ -574,6 +574,41 @@ def pool_inventory(ctx, report, rule, facts, config, crossing_only=False):
         report.ob(rule, "rayon/%s" % b.qname, not pr, "every way through: %s" % sorted(want.items()) if not pr else "; ".join(sorted(set(pr))), site=b.loc(), config=config)
 
 
+# ------------------------------------------------------------------ chaining twins of the builder
+
+def chaining(ctx, report, rule, facts, config, pairs):
+    """`with_x(self, a, b) -> Self` is `add_x(&mut self, a, b)` and `self`: on every way through, exactly one call of the twin,
+    on the builder itself, with the wrapper's own arguments in order - or what the caller asked to register is not what the
+    rules about `add_x` are about."""
+    from . import semq as Q
+    n = 0
+    for w, t in pairs:
+        wb = facts.maybe(qname=A.DB + "::" + w) if hasattr(facts, "maybe") else None
+        if wb is None:
+            continue
+        tb = facts.one(A.DB + "::" + t)
+        n += 1
+        report.touched(wb, config)
+        ev, ends = Q.sem(ctx, facts, wb, opaque=[tb.key])
+        rets = Q.returns(ends)
+        pr = []
+        if not rets:
+            pr.append("no way through returns")
+        argc = wb.raw.get("arg_count", 0)
+        for e in rets:
+            cs = Q.calls_in(e.path.events, lambda c: c.key == tb.key or c.resolved_key == tb.key, deep=True)
+            if len(cs) != 1:
+                pr.append("%s is called %d time(s) on a way through" % (t, len(cs)))
+                continue
+            args = [Q.strip(ev, a) for a in cs[0][3]]
+            if args != [("param", i) for i in range(1, argc + 1)]:
+                pr.append("%s is not given the builder and the wrapper's own arguments in order" % t)
+            if e.ret is None or ("param", 1) not in Q.origins(ev, e.ret):
+                pr.append("the builder is not what is returned")
+        report.ob(rule, "chain/%s" % w, not pr, "%s(self, ..) = %s(&mut self, ..); self" % (w, t) if not pr else "%s: %s" % (w, "; ".join(sorted(set(pr)))), site=wb.loc(), config=config)
+    return n
+
+
 # ------------------------------------------------------------------ ENCAPSULATION
 
 # whose state the rules of a property take the crate's own code for the only writer of
